@@ -32,7 +32,7 @@ def sym(ctx, cfg):
     scores = symnp.SArray([SNum(z) for z in zs], symnp.float64 if skind == "real" else symnp.int8 if skind == "int8" else symnp.int64)
     if skind == "int":
         for z in zs:
-            ctx.assume(z3.And(z >= -2 ** 63, z <= 2 ** 63 - 1))  # int64
+            ctx.assume(z3.And(z >= -2 ** 24, z <= 2 ** 24))  # "small-integer" scores: exactly representable in the float32 they are cast to
     if skind == "int8":
         for z in zs:
             ctx.assume(z3.And(z >= -128, z <= 127))  # the whole range of the dtype, its minimum included
@@ -116,7 +116,7 @@ def harnesses(tier):
         hs.append(Harness(name, cfg, sym, real="tdc", functions=funcs,
                           bounds=dict(N=n, scores=skind, labels=lkind),
                           stubs=["symnp (numpy subset, argsort ties nondeterministic)", "typeguard.typechecked = identity", "numba.njit = identity"],
-                          assumptions=["scores are finite reals / integers (float = mathematical real; float32 rounding outside the claim)",
+                          assumptions=["scores are finite reals / integers (float = mathematical real; float32 rounding outside the claim); int64 scores |s| <= 2^24 (exact in float32), int8 scores over the whole dtype range",
                                        "0 < eval_fdr <= 1",
                                        "N <= %d" % n]))
     nmax = 4 if tier == "quick" else 5
